@@ -53,6 +53,7 @@ var expose = map[string]map[string][]string{
 	"server": {
 		"(*Cluster).run":         {"missed", "rehashSkipped"},
 		"(*Cluster).electLeader": {"voteCount", "expectVotes"},
+		"(*Topic).runLocal":      {"currentUA"},
 	},
 }
 
@@ -325,12 +326,18 @@ func (r *rewriter) exposeLocals(f *ast.File, want map[string][]string, found map
 		var out []ast.Stmt
 		for _, st := range fn.Body.List {
 			out = append(out, st)
-			as, ok := st.(*ast.AssignStmt)
-			if !ok || as.Tok != token.DEFINE || len(as.Lhs) != 1 {
-				continue
+			var id *ast.Ident
+			if as, ok := st.(*ast.AssignStmt); ok && as.Tok == token.DEFINE && len(as.Lhs) == 1 {
+				id, _ = as.Lhs[0].(*ast.Ident)
+			} else if ds, ok := st.(*ast.DeclStmt); ok {
+				// var name T
+				if gd, ok := ds.Decl.(*ast.GenDecl); ok && gd.Tok == token.VAR && len(gd.Specs) == 1 {
+					if vs, ok := gd.Specs[0].(*ast.ValueSpec); ok && len(vs.Names) == 1 {
+						id = vs.Names[0]
+					}
+				}
 			}
-			id, ok := as.Lhs[0].(*ast.Ident)
-			if !ok {
+			if id == nil {
 				continue
 			}
 			for _, n := range names {
